@@ -22,6 +22,37 @@ NEEDS = {
  "C09-2": ("ZipCrypto writer hands its buffer to the sink with write instead of write_all", "sink short write inside an encrypted entry's bytes"),
  "C10-1": ("drop-time drain skipped when the uncompressed size is 0", "empty entry with a compressing method released unread"),
  "C10-2": ("central signature read with a single read()", "visitor over a stream that returns fewer than 4 bytes at a later central header"),
+ "C11-1": ("seek back to the end of the entry ignored (let _ =)", "exactly that seek fails (I/O call 20 or 41 of the two-file scenario); every call still returns Ok"),
+ "C11-2": ("failing stream_position() swallowed while parsing a central header", "one particular seek fails during ZipArchive::new; only central_header_start() of that entry is wrong"),
+ "C12-1": ("CRC/byte counters reset moved into finish_file's non-raw branch", "raw_copy_file, then start_file, write, finish: the copy's bytes leak into the next entry's size and CRC"),
+ "C12-2": ("implicit end of extra data skipped in central-only mode", "start_file_with_extra_data, end_local_start_central_extra_data, then start_file / add_directory / finish"),
+ "C13-1": ("made-by system rewritten as Unix when the central directory is re-emitted", "base archive with DOS/NTFS-made entries and non-zero attributes; any append round, even an empty one"),
+ "C13-2": ("stream length at open measured without the prepended data", "base with prepended data AND longer old end structures (forced ZIP64 records / long file comments)"),
+ "C14-1": ("raw copy skips the data when the uncompressed size is 0", "empty source entry with a compressing method (non-empty compressed bytes)"),
+ "C14-2": ("start_entry refuses Unsupported methods up front", "raw copy of an entry with a method the crate cannot decode (by_index_raw)"),
+ "C15-1": ("Info-ZIP validator compares two header bytes", "foreign bit-3 ZipCrypto entry whose 11th header byte is not the low time byte"),
+ "C15-2": ("empty password means no encryption", "with_deprecated_encryption(b\"\")"),
+ "C16-1": ("AE-2 CRC enforced when non-zero", "AE-2 entry whose CRC field is non-zero and not the real CRC"),
+ "C16-2": ("'>' instead of '>=' when computing the AES payload length", "empty stored AES entry (compressed size exactly salt+2+10)"),
+ "C17-1": ("alignment arithmetic on the data offset truncated to u16", "non-power-of-two alignment with a data offset of 65 532 or more"),
+ "C17-2": ("validate_extra_data only for the local part", "invalid central-only extra data"),
+ "C18-1": ("seconds rounded up when packing", "odd second through the checked constructor / try_from"),
+ "C18-2": ("OffsetDateTime converted to UTC after the range check on the local year", "non-UTC OffsetDateTime whose local and UTC years differ at the range edges"),
+ "C19-1": ("CP437 decoder falls back to the table only if the bytes are not valid UTF-8", "flag clear + name/comment that is well-formed multi-byte UTF-8"),
+ "C19-2": ("UTF-8 flag test off by one (c > U+0080)", "name whose only non-ASCII character is U+0080"),
+ "C20-1": ("reader position cached in the shared part to skip a seek", "handle A finishes entry k, handle B then opens entry k+1 (single thread alternation or threads)"),
+ "C20-2": ("data_start published half-computed and reused by a fast path", "two threads racing in find_content on the same entry"),
+}
+HISTORY = {
+ "C07-2": "missed at first (modes compared & 0o777); C07 now sweeps all 4096 twelve-bit modes and compares & 0o7777",
+ "C03-1": "missed at first (comment + garbage <= 1500 bytes); C03 now has the window-edge part (sums 65 513..65 535)",
+ "C10-2": "missed at first (visitor only over a plain cursor); C10 now runs the visitor over 1-byte, 3-byte and every single-cut stream",
+ "C08-2": "missed by C08 at first (foreign ZIP64 cases were stored: equal sizes); C08 now checks 512 builder archives with every ZIP64 subset and differing sizes (C03 caught it already)",
+ "C18-2": "missed at first (calendar sweep was UTC only); C18 now sweeps 9 offsets around the range edges",
+ "C17-1": "missed at first (data offsets stayed below 2^16); C17 now has preceding entries of 65 500 and 200 000 bytes",
+ "C13-2": "missed at first (no base combined a prefix with longer old end structures); C13 now has four such bases",
+ "C11-2": "missed at first (reader observation lacked the offset accessors); C09/C11 observations now include header_start, central_header_start, data_start and unix_mode",
+ "C17-2": "patch re-based onto the tree after fix D15 touched the same function (same change)",
 }
 for d in sorted(glob.glob('/verif/seeded/*/')):
     name = os.path.basename(d.rstrip('/'))
@@ -42,7 +73,7 @@ for d in sorted(glob.glob('/verif/seeded/*/')):
                 "git -C /repo apply patch.diff; ./check <ID> quick; git -C /repo checkout -- ."],
         "check_exit_with_patch": ev.get('check_exit'), "first_violation": ev.get('first_violation', ''),
         "detected": ev.get('check_exit') == 1,
-        "history": old.get('history', []),
+        "history": HISTORY.get(name, ""),
     }
     json.dump(meta, open(mp, 'w'), indent=1)
     print(name, 'detected' if meta['detected'] else 'MISSED', meta['confirmed'])
